@@ -349,7 +349,7 @@ class Gen:
             op = r.choice(["chg_lo", "chg_up", "chg_lhs", "chg_rhs", "chg_obj", "chg_el", "chg_bounds", "chg_range",
                            "vchg_lo", "vchg_up", "vchg_lhs", "vchg_rhs", "vchg_obj", "vchg_bounds", "vchg_range",
                            "add_row", "add_row", "add_col", "add_col", "add_rows", "add_cols", "chg_row", "chg_col",
-                           "rm_row", "rm_col", "rm_rows", "rm_cols", "sense", "scaler", "persist", "clearbasis"])
+                           "rm_row", "rm_col", "rm_rows", "rm_cols", "sense", "scaler", "persist", "clearbasis", "sc_lo", "sc_up", "sc_lhs", "sc_rhs"])
             pv = 0.3 if r.random() < 0.35 else 0.0      # infinite entries in a vector operation
             if op == "chg_lo" and n:
                 j = r.randrange(n)
@@ -485,6 +485,10 @@ class Gen:
                 ks = sorted(r.sample(range(n), 2))
                 cols[:] = [x for j, x in enumerate(cols) if j not in ks]
                 ops.append([op, ",".join(map(str, ks)) + ","])
+            elif op in ("sc_lo", "sc_up") and n > 0:
+                ops.append([op, str(r.randrange(n))])
+            elif op in ("sc_lhs", "sc_rhs") and m > 0:
+                ops.append([op, str(r.randrange(m))])
             elif op == "sense" and r.random() < 0.5:
                 ops.append([op, str(r.choice([1, -1]))])
             elif op == "scaler" and r.random() < 0.6:
@@ -531,6 +535,15 @@ def systematic():
                   "ops": [["solve"], ["scaler", "0"], ["chg_obj", "0", "1:1"], ["solve"], ["scaler", "4"], ["solve"]]})
     cases.append({"mode": "USER", "scaler": 6, "persistent": 1, "simp": 1, "lp": base, "family": "sys-persist-toggle",
                   "ops": [["solve"], ["persist", "0"], ["chg_rhs", "1", "1:0"], ["solve"], ["persist", "1"], ["solve"]]})
+    # change calls whose argument is the internally stored (scaled) value of the bound / side they change
+    img = {"m": 2, "n": 2, "sense": -1, "obj": ["1:0", "3:-4"], "lo": ["1:0", "3:-2"], "up": ["5:3", "7:4"],
+           "lhs": ["1:4", "1:2"], "rhs": ["3:8", "5:6"], "robj": ["0:0", "0:0"],
+           "A": [(0, 0, "1:6"), (0, 1, "1:-2"), (1, 0, "1:2"), (1, 1, "1:-6")]}
+    for sc in (1, 2, 3, 4, 5, 6):
+        for lpk in (0, 1):
+            cases.append({"mode": "USER", "scaler": sc, "persistent": 1, "simp": lpk, "lp": img, "family": "sys-scaled-image",
+                          "ops": [["solve"], ["sc_lo", "0"], ["sc_up", "1"], ["solve"], ["sc_lhs", "0"], ["sc_lhs", "1"], ["sc_rhs", "0"], ["solve"],
+                                  ["sc_up", "0"], ["sc_lo", "1"], ["solve"]]})
     # scaler sequences s1 -> off -> s3 on one object: switching the scaler off leaves the old exponents in the LP, and a scaler that decides
     # not to scale (geometric scalers on an LP whose ratio is small already) must not reuse them; mild: ratio 16, non-trivial exponents
     mild = {"m": 2, "n": 2, "sense": -1, "obj": ["1:0", "1:0"], "lo": ["0:0", "0:0"], "up": [INF_TOK, "5:3"],
@@ -1394,8 +1407,9 @@ def user_case(ck, k, c, ls, mblocks, strip, replay_of, crash):
         prevA = fa
     if crash == ["PARTIAL"]:
         return stopped         # output of a process that was aborted by the sanitizer: only the divergence matters
+    # (histories with sc_* calls take their values from the scaled object at run time: the generator cannot mirror them)
     if not crash and not stopped and "final" in c and steps and not any(x["skipped"] for x in steps) and "A" in steps[-1] \
-            and steps[-1]["k"] == len(c["ops"]):
+            and steps[-1]["k"] == len(c["ops"]) and not any(o[0].startswith("sc_") for o in c["ops"]):
         fa = parse_fields(steps[-1]["A"])
         for key in ("lo", "up", "lhs", "rhs"):
             if flist(fa, key) != c["final"][key]:
